@@ -26,6 +26,8 @@ const (
 	SConsDXFSave
 	SConsSVG
 	SConsSVGSave
+	SGoStart     // a consumer goroutine that has been created but has not run yet
+	SWorkerStart // an evaluation worker that has been created but has not run yet
 	SHarness
 	siteCount
 )
@@ -36,6 +38,7 @@ var siteNames = map[simcore.Site]string{
 	SCaller: "caller", SConsTri: "cons.tri", SConsSTL: "cons.stl", SConsSTLFlush: "cons.stl.flush",
 	SCons3MF: "cons.3mf", SCons3MFEnc: "cons.3mf.encode", SConsDXF: "cons.dxf", SConsDXFSave: "cons.dxf.save",
 	SConsSVG: "cons.svg", SConsSVGSave: "cons.svg.save", SHarness: "harness",
+	SGoStart: "go.start", SWorkerStart: "worker.start",
 }
 
 var siteByName = func() map[string]simcore.Site {
@@ -48,20 +51,28 @@ var siteByName = func() map[string]simcore.Site {
 
 // hook site strings used inside /repo (tag verif) -> Site
 var hookSites = map[string]simcore.Site{
-	"sdf.WriteTriangles":     SConsTri,
-	"render.writeSTL":        SConsSTL,
-	"render.writeSTL.flush":  SConsSTLFlush,
-	"render.write3MF":        SCons3MF,
-	"render.write3MF.encode": SCons3MFEnc,
-	"render.writeDXF":        SConsDXF,
-	"render.writeDXF.save":   SConsDXFSave,
-	"render.writeSVG":        SConsSVG,
-	"render.writeSVG.save":   SConsSVGSave,
-	"render.layerYZ.sent":    SSent,
+	"sdf.WriteTriangles":        SConsTri,
+	"render.writeSTL":           SConsSTL,
+	"render.writeSTL.flush":     SConsSTLFlush,
+	"render.write3MF":           SCons3MF,
+	"render.write3MF.encode":    SCons3MFEnc,
+	"render.writeDXF":           SConsDXF,
+	"render.writeDXF.save":      SConsDXFSave,
+	"render.writeSVG":           SConsSVG,
+	"render.writeSVG.save":      SConsSVGSave,
+	"render.layerYZ.sent":       SSent,
+	"sdf.WriteTriangles.start":  SGoStart,
+	"render.writeSTL.start":     SGoStart,
+	"render.write3MF.start":     SGoStart,
+	"render.writeDXF.start":     SGoStart,
+	"render.writeSVG.start":     SGoStart,
+	"render.evalRoutines.start": SWorkerStart,
 }
 
 // consumer-side sites (the "stalled consumer" victim class)
-func isConsumerSite(s simcore.Site) bool { return s >= SConsTri && s <= SConsSVGSave }
+func isConsumerSite(s simcore.Site) bool {
+	return (s >= SConsTri && s <= SConsSVGSave) || s == SGoStart
+}
 
 // Scenario is one fully expanded episode: history x schedule x faults.
 type Scenario struct {
